@@ -339,6 +339,14 @@ C12_NoQoS0Retx == fresh = "Write" =>
 C12_RelHasPublish == fresh = "Write" =>
   LET j == NW IN (wire[j].p = "PUBREL") => RelTag(j) # 0
 
+\* every PUBLISH on the wire (first transmissions, also deferred ones sent from the client's queued copy, and
+\* retransmissions) carries the QoS, retain flag and topic the application submitted for that message
+C12_AsSubmitted == fresh = "Idle" =>
+  \A j \in 1..Len(wire) : IsPub(j) =>
+    LET n == wire[j].tag IN
+    (n \in 1..Len(reqs) /\ reqs[n].k = "pub") =>
+       /\ wire[j].qos = reqs[n].q /\ wire[j].retain = reqs[n].retain /\ wire[j].topic = "t"
+
 \* ---- C17 ---------------------------------------------------------------
 \* Handle calls are made by one goroutine: k-th call = handles[2k-1] (call) and handles[2k] (ret).
 NH == Len(handles) \div 2
@@ -381,7 +389,7 @@ Obs == [
   C03_OrderPerConn |-> C03_OrderPerConn, C03_FirstTxOrder |-> C03_FirstTxOrder, C03_FirstDeliveryOrder |-> C03_FirstDeliveryOrder,
   C08_StableSubs |-> C08_StableSubs, C08_NoResubUnlessDue |-> C08_NoResubUnlessDue,
   C12_DupFlag |-> C12_DupFlag, C12_SameOnRetx |-> C12_SameOnRetx, C12_NoPubAfterRel |-> C12_NoPubAfterRel,
-  C12_NoQoS0Retx |-> C12_NoQoS0Retx, C12_RelHasPublish |-> C12_RelHasPublish,
+  C12_NoQoS0Retx |-> C12_NoQoS0Retx, C12_RelHasPublish |-> C12_RelHasPublish, C12_AsSubmitted |-> C12_AsSubmitted,
   C17_RightHandler |-> C17_RightHandler, C17_AtMostOnce |-> C17_AtMostOnce, C17_NoneDropped |-> C17_NoneDropped,
   C18_TimeoutClosesAndReports |-> C18_TimeoutClosesAndReports, C18_NoStall |-> C18_NoStall ]
 
